@@ -130,6 +130,9 @@ def run_unit(unit):
     for obj, ft, mf in ((LZ.INF, 'angle', p['ang']), (p['od'][0], 'object_height', p['h'])):
         sp0 = LZ.spec(base, obj=obj, ap=('EPD', p['epd']), ftype=ft, fields=(0.0, 0.7 * mf, mf), waves=waves)
         rows0 = prescription.rows(sp0, lambda m, prev: LZ.ref_index(m, 0.5876, prev))
+        if abcd.pupil_degenerate(rows0):
+            part.count('skipped-telecentric-pupil')
+            continue
         card = abcd.cardinal(rows0)
         ys, us, _ = abcd.marginal(rows0, ('EPD', p['epd']))
         if abs(us[-2]) < 1e-6:
